@@ -99,6 +99,12 @@ def generate(seed, tier):
         nm_ = rng.choice(['INF', 'NAN', 'Infinity', 'Inf', 'NaN'])
         inserts.append((main_i, {'op': 'AddVariable', 'sector': cop['id'], 'name': nm_, 'eqn': '0.02'}))
         inserts.append((main_i, {'op': 'AddVariable', 'sector': cop['id'], 'name': 'EXP' + nm_, 'eqn': rng.choice([nm_, '-' + nm_, ' ' + nm_ + ' '])}))
+    if rng.random() < 0.3 and len(secs) >= 2:
+        # one Equation object, owned by the caller, registered in two sectors (each has its own F)
+        (i1, o1), (i2, o2) = rng.sample(secs, 2)
+        eqid = 'q%d' % rng.randint(0, 9)
+        for (ii, oo) in ((i1, o1), (i2, o2)):
+            inserts.append((main_i, {'op': 'AddVariableEq', 'sector': oo['id'], 'eqobj': eqid, 'text': 'ZQ = F + 1.5'}))
     if rng.random() < 0.3:
         # a diagnostic dump in the middle of construction (it generates full codes with the countries known so far)
         inserts.append((rng.randint(secs[0][0] + 1, main_i), {'op': 'LogInfo', 'model': model}))
@@ -259,6 +265,50 @@ def execute(case):
                     break
             if stop:
                 break
+        if stop:
+            break
+        # user-supplied equations keep the meaning they were given (evaluated from the op list, not from the
+        # library's own - possibly rewritten - local objects)
+        by_id = {}
+        for fc, s_ in handle_of.items():
+            by_id[s_.ID] = fc
+        user = {}
+        for o in ops:
+            if o.get('sector') not in sess.H or o['sector'] not in d.sectors:
+                continue
+            fc = R.full_code(d, o['sector'])
+            if o['op'] in ('AddVariable', 'SetRHS') and o['name'].startswith(('Z', 'EXP')):
+                user[(fc, o['name'])] = sess.subst(o.get('eqn', ''))
+            elif o['op'] == 'AddVariableEq':
+                lhs, rhs = [x.strip() for x in o['text'].split('=', 1)]
+                user[(fc, lhs)] = rhs
+        for (fc, var), text in sorted(user.items()):
+            full = fc + '__' + var
+            if full not in emitted or text.strip() == '' or any(o_['op'] == 'AddTerm' and o_['name'] == var for o_ in ops):
+                continue
+            local_names = handle_of[fc].GetVariables()
+
+            def want_user(env, text=text, fc=fc, local_names=local_names):
+                e2 = dict(env)
+                for n in local_names:
+                    e2[n] = env[fc + '__' + n]
+                # placeholders handed out earlier stand for the canonical variable of the sector with that ID
+                for m_ in re.finditer(r'_([0-9]+)__([A-Za-z_][A-Za-z_0-9]*)', text):
+                    sid = int(m_.group(1))
+                    if sid in by_id:
+                        e2[m_.group(0)] = env[by_id[sid] + '__' + m_.group(2)]
+                return V.ev(text, e2)
+            try:
+                b = V.same_value(emitted[full], want_user, vals)
+            except Exception as ex:   # noqa
+                b = None     # the user text refers to something this reference cannot value: leave it to the other checks
+            if b is not None:
+                viol.append(core.violation(ID, 'emitted-differs-from-user-equation', 'emitted-differs-from-user-equation',
+                                           variable=full, user_text=text[0:120], emitted=emitted[full][0:120],
+                                           **{k: v for k, v in b.items() if k in ('got', 'want', 'error')}))
+                stop = True
+                break
+            stats['probes']['user_equation_checked'] = 1
         if stop:
             break
         # names requested after main are canonical
